@@ -98,6 +98,7 @@ SignOf(x) ==
   IF x.k = "sum" THEN (IF x.x.n < 0 THEN -1 ELSE 1)
   ELSE IF x.n < 0 THEN -1 ELSE IF x.n > 0 THEN 1 ELSE 0
 NumCmp(x, y) == SignOf(Sub(x, y))
+NumEq(x, y) == x.k = "num" /\ y.k = "num" /\ x.n = y.n /\ x.d = y.d /\ x.e = y.e   \* equal, ignoring the sign of zero
 
 \* truncation toward zero, as a num.  |x| >= 2^MaxShift has no fraction bits here.
 Trunc(x) ==
@@ -137,14 +138,23 @@ RECURSIVE DigitsLE(_)
 DigitsLE(i) == IF i < 10 THEN <<i>> ELSE <<i % 10>> \o DigitsLE(i \div 10)
 Rev(s) == [i \in 1..Len(s) |-> s[Len(s) + 1 - i]]
 DigText(ds) == [i \in 1..Len(ds) |-> DigitChar(ds[i])]       \* big-endian digits -> bytes
-NumText(x) ==
-  LET sign == IF IsNeg(x) THEN <<"-">> ELSE <<>> IN
-  IF x.n = 0 THEN sign \o <<"0">>
-  ELSE IF x.e >= 0 THEN sign \o DigText(Rev(MulPow(DigitsLE(Abs(x.n)), 2, x.e)))
+\* exact decimal expansion of |x|
+ExactText(x) ==
+  IF x.e >= 0 THEN DigText(Rev(MulPow(DigitsLE(Abs(x.n)), 2, x.e)))
   ELSE LET kk == -x.e
            raw == MulPow(DigitsLE(Abs(x.n)), 5, kk)           \* n * 5^k, to be divided by 10^k
            pad == raw \o [i \in 1..(IF Len(raw) > kk THEN 0 ELSE kk + 1 - Len(raw)) |-> 0]
-       IN sign \o DigText(Rev(SubSeq(pad, kk + 1, Len(pad)))) \o <<".">> \o DigText(Rev(SubSeq(pad, 1, kk)))
+       IN DigText(Rev(SubSeq(pad, kk + 1, Len(pad)))) \o <<".">> \o DigText(Rev(SubSeq(pad, 1, kk)))
+\* The print form is the SHORTEST decimal that reads back as the same double.  Up to 16
+\* significant digits that is the exact expansion; the longer numbers the models use are
+\* listed here (leaf facts; the harness checks them against strconv).
+LongNumTexts == {<<[n |-> 1, e |-> 70], Chars("1180591620717411300000")>>}
+NumText(x) ==
+  LET sign == IF IsNeg(x) THEN <<"-">> ELSE <<>>
+      long == {p \in LongNumTexts : p[1].n = Abs(x.n) /\ p[1].e = x.e /\ x.d = 1}
+  IN IF x.n = 0 THEN sign \o <<"0">>
+     ELSE IF long # {} THEN sign \o (CHOOSE p \in long : TRUE)[2]
+     ELSE sign \o ExactText(x)
 
 \* ----- numeric strings: [sign] digits [. digits] [e [sign] digits], at least
 \* one mantissa digit, nothing else (no blanks).  Go's hex / inf / nan / _
@@ -358,6 +368,11 @@ Round(x) ==
 ObjLen(o) == Cardinality(DOMAIN o)
 Range(f) == {f[i] : i \in DOMAIN f}
 Pluck(o, keys) == [key \in Range(keys) |-> IF key \in DOMAIN o THEN o[key] ELSE VNull]
+\* the same over a heap (ids -> objects): the result is a NEW object, the receiver is untouched
+PluckH(h, id, keys) ==
+  LET nid == SetMax(DOMAIN h) + 1
+  IN [heap |-> [i \in DOMAIN h \cup {nid} |-> IF i = nid THEN Pluck(h[id], keys) ELSE h[i]], id |-> nid]
+SetKeyH(h, id, key, v) == [h EXCEPT ![id] = [kk \in DOMAIN h[id] \cup {key} |-> IF kk = key THEN v ELSE h[id][kk]]]
 
 \* num(v): the number a numeric string denotes, null for any other string;
 \* num() of a number is not fixed by the statement; other kinds: see MC_Methods
